@@ -25,6 +25,9 @@
  */
 
 #include "ares_private.h"
+#ifdef CARES_VERIF
+#  include "ares_verif.h"
+#endif
 #include <stdlib.h>
 
 /* Older MacOS versions require including AvailabilityMacros.h before
@@ -290,6 +293,13 @@ void ares_destroy_rand_state(ares_rand_state *state)
 static void ares_rand_bytes_fetch(ares_rand_state *state, unsigned char *buf,
                                   size_t len)
 {
+#ifdef CARES_VERIF
+  if (ares_verif_rand_cb != NULL) {
+    ares_verif_rand_cb(buf, len);
+    return;
+  }
+#endif
+
   while (1) {
     size_t bytes_read = 0;
 
